@@ -370,7 +370,7 @@ class PopulationBalanceModel:
         self.max = np.amax([10*self.min, cMax])
 
         if resetPSD:
-            self.reset()
+            self.reset(False)
         else:
             oldV = self.ThirdMoment()
             distDen = self.PSD / (self.PSDbounds[1:] - self.PSDbounds[:-1])
